@@ -36,9 +36,9 @@ OPS = ("Select", "Where", "SelectMany")
 @st.composite
 def case_strategy(draw, maxdepth, odd=False, namings=("distinct", "distinct", "same", "reuse", "reuse", "argn", "astnames")):
     naming = draw(st.sampled_from(namings))
-    cfg = typed.Cfg(naming=naming, odd_selectors=odd, method_form=draw(st.sampled_from([0.0, 0.2, 0.5])))
+    cfg = typed.Cfg(naming=naming, odd_selectors=odd, method_form=draw(st.sampled_from([0.0, 0.2, 0.5])), free_scalar=True)
     cx = typed.Ctx(draw, cfg)
-    env = [("ds", typed.S(typed.EVT)), ("k0", typed.I)]  # k0: a free scalar variable of the query (bound by the evaluation environment)
+    env = [("ds", typed.S(typed.EVT))]  # (a second free variable, the scalar k0, may occur in default values of called lambdas)
     depth = draw(st.integers(2, maxdepth))
     k = draw(st.integers(0, 16))
     if k >= 14:
@@ -196,7 +196,7 @@ def unp(t):
 
 
 def compare_values(case, r: Result, tree, out, expect, total=False):
-    fo = pyeval.free_names(tree) | set(pyeval.PRELUDE)
+    fo = pyeval.free_names(tree) | set(pyeval.PRELUDE) | {"_vf_sub", "_vf_slice", "_vf_Rec"}
     try:
         fr = pyeval.free_names(out)
     except Exception as e:
